@@ -274,3 +274,113 @@ def step (st : Store) : Op → Store × Out
     | none => (st, .badHandle)
 
 end U3.Headers
+
+namespace U3.Headers
+open U3
+/-! ## The reference machine: every operation on the flat line lists only
+
+`specStep` is the "simple reference multimap" of the property: a store of flat `(name, value)` line
+lists on which assignment replaces, add appends and names compare case-insensitively.  It never
+mentions the grouped representation.  `U3.Props.C16_refines` proves that the model of the real class
+commutes with it through `iteritems`. -/
+
+def other (k : Str) (q : Str × Str) : Bool := !(lower q.1 == lower k)
+
+/-- first-seen spellings of the distinct names, in order of first appearance -/
+def specNamesAux (seen : List Str) : Flat → List Str
+  | [] => []
+  | p :: t =>
+    if seen.contains (lower p.1) then specNamesAux seen t
+    else p.1 :: specNamesAux (lower p.1 :: seen) t
+
+def specNames (f : Flat) : List Str := specNamesAux [] f
+
+def specMerged (f : Flat) : Flat := (specNames f).map (fun n => (n, merged (specGetlist f n)))
+
+def specGet (f : Flat) (k : Str) : Option Str :=
+  if fHas f k then some (merged (specGetlist f k)) else none
+
+def specDiscard (f : Flat) (k : Str) : Flat := f.filter (other k)
+def specExtend (f : Flat) (ps : List (Str × Str)) : Flat := ps.foldl (fun f p => specAdd f p.1 p.2) f
+def specUpdate (f : Flat) (ps : List (Str × Str)) : Flat := ps.foldl (fun f p => specSet f p.1 p.2) f
+
+def specLinesOf (st : List Flat) : Src → Option Flat
+  | .hd i => st[i]?
+  | .pairs ps => some ps
+
+def specMergedOf (st : List Flat) : Src → Option Flat
+  | .hd i => st[i]?.map specMerged
+  | .pairs ps => some ps
+
+def specConstruct (st : List Flat) : Src → Option Flat
+  | .hd i => st[i]?
+  | .pairs ps => some (specExtend [] ps)
+
+def specPop (f : Flat) (k : Str) : Option (Flat × Str) :=
+  match specGet f k with
+  | some v => some (specDiscard f k, v)
+  | none => none
+
+def specStep (st : List Flat) : Op → List Flat × Out
+  | .new => (st ++ [[]], .handle st.length)
+  | .ctor s => match specConstruct st s with
+    | some f => (st ++ [f], .handle st.length)
+    | none => (st, .badHandle)
+  | .set i k v => match st[i]? with
+    | some f => (st.set i (specSet f k v), .unit)
+    | none => (st, .badHandle)
+  | .del i k => match st[i]? with
+    | some f => (match specDel f k with
+      | some f' => (st.set i f', .unit)
+      | none => (st, .keyError))
+    | none => (st, .badHandle)
+  | .add i k v c => match st[i]? with
+    | some f => (st.set i (if c then specAddC f k v else specAdd f k v), .unit)
+    | none => (st, .badHandle)
+  | .extend i s => match st[i]?, specLinesOf st s with
+    | some f, some ps => (st.set i (specExtend f ps), .unit)
+    | _, _ => (st, .badHandle)
+  | .update i s => match st[i]?, specMergedOf st s with
+    | some f, some ps => (st.set i (specUpdate f ps), .unit)
+    | _, _ => (st, .badHandle)
+  | .setdefault i k v => match st[i]? with
+    | some f => (match specGet f k with
+      | some x => (st.set i f, .str x)
+      | none => (st.set i (specSet f k v), .str v))
+    | none => (st, .badHandle)
+  | .pop i k d => match st[i]? with
+    | some f => (match specPop f k, d with
+      | some (f', v), _ => (st.set i f', .str v)
+      | none, some d => (st, .str d)
+      | none, none => (st, .keyError))
+    | none => (st, .badHandle)
+  | .popitem i => match st[i]? with
+    | some f => (match f with
+      | [] => (st, .keyError)
+      | p :: _ => match specPop f p.1 with
+        | some (f', v) => (st.set i f', .pair p.1 v)
+        | none => (st, .keyError))
+    | none => (st, .badHandle)
+  | .discard i k => match st[i]? with
+    | some f => (st.set i (specDiscard f k), .unit)
+    | none => (st, .badHandle)
+  | .clear i => match st[i]? with
+    | some _ => (st.set i [], .unit)
+    | none => (st, .badHandle)
+  | .copy i => match st[i]? with
+    | some f => (st ++ [f], .handle st.length)
+    | none => (st, .badHandle)
+  | .or i s => match st[i]?, specLinesOf st s with
+    | some f, some ps => (st ++ [specExtend f ps], .handle st.length)
+    | _, _ => (st, .badHandle)
+  | .ior i s => match st[i]?, specLinesOf st s with
+    | some f, some ps => (st.set i (specExtend f ps), .unit)
+    | _, _ => (st, .badHandle)
+  | .ror i s => match st[i]?, specConstruct st s with
+    | some f, some r => (st ++ [specExtend r f], .handle st.length)
+    | _, _ => (st, .badHandle)
+  | .pmc i => match st[i]? with
+    | some f => (st.set i (contentSpecific.foldl specDiscard f), .unit)
+    | none => (st, .badHandle)
+
+end U3.Headers
